@@ -8,6 +8,7 @@ Line-protocol driver for C18 (BMCI bookkeeping).  Numbers are exact rationals wr
   load  n p1 x1 c1 w1 ... i1 ... in       -> "ok" | "invalid"   arrays of the real object
                                               (pc1_proj, x, chi2, w in ITS order; x_sorted_inds), checked by `validB`
   window  r sl su                          -> "il iu"            (r = 1 iff x2_max >= 0)
+  windowbin r sl su                        -> "il iu"            (same with numpy's bisection)
   predict r sl su                          -> "nan" | "val mean var"
   cdf     r sl su                          -> "index-error" | "nan k xs.." | "val k xs.. cum.."
   quant   r sl su t1 t2 ...                -> "index-error" | "value-error" | "nan" | "val q1 q2 .."
@@ -60,6 +61,10 @@ def step (db : Db Rat) (line : String) : Db Rat × String :=
   | ["window", r, sl, su] =>
     match queryOf r sl su with
     | some q => let b := bounds db q; (db, s!"{b.1} {b.2}")
+    | none => (db, "bad-op")
+  | ["windowbin", r, sl, su] =>
+    match queryOf r sl su with
+    | some q => let b := boundsBin db q; (db, s!"{b.1} {b.2}")
     | none => (db, "bad-op")
   | ["predict", r, sl, su] =>
     match queryOf r sl su with
